@@ -225,7 +225,7 @@ def postN (st : St) (tid : Nat) : NOp → List Act
         -- back: nobody else can reach the box); `append` = `detach` on it: in place only if the String data has one handle too
         [.write [], .takeE (tmpU tid) c 0 d] ++
           (if innerSole st c then [.readRef (tmpU tid) true, .write (innerVal st c ++ bytes)]
-           else [.alloc (tmpT tid) tagStr (innerVal st c ++ bytes) (st.capTab siteDetach (innerVal st c ++ bytes).length),
+           else [.alloc (tmpT tid) tagStr (innerVal st c ++ bytes) (detCap st (embSlotK c 0) (innerVal st c ++ bytes).length),
                  .dec (tmpU tid), .free, .move (tmpU tid) (tmpT tid)]) ++
           [.putE c 0 (tmpU tid) d]
       | none => [.write (viewVal st d)]
@@ -235,7 +235,7 @@ def postN (st : St) (tid : Nat) : NOp → List Act
         -- then detach the String inside the new box (its data now has at least two handles: cloned)
         [.alloc (tmpT tid) tagVStrN [] 0, .incE (tmpU tid) c 0 d, .putE st.next 0 (tmpU tid) (tmpT tid), .dec d, .free,
          .move d (tmpT tid), .takeE (tmpU tid) st.next 0 d,
-         .alloc (tmpT tid) tagStr (innerVal st c ++ bytes) (st.capTab siteDetach (innerVal st c ++ bytes).length),
+         .alloc (tmpT tid) tagStr (innerVal st c ++ bytes) (detCap st (embSlotK c 0) (innerVal st c ++ bytes).length),
          .dec (tmpU tid), .free, .move (tmpU tid) (tmpT tid), .putE st.next 0 (tmpU tid) d]
       | none =>
         [.alloc (tmpT tid) tagVStrN [] 0, .dec d, .free, .move d (tmpT tid),
